@@ -985,3 +985,26 @@ def check_budget(segs, kind, lo, hi, total):
     if cur != hi + ONE:
         return False, f'covered range ends at {cur - ONE}, expected {hi}: {detail}'
     return True, detail
+
+
+def check_cover(segs, kind, lo, hi, facts):
+    """the union of the positions visited by events of `kind` contains [lo, hi] (decided under `facts`)"""
+    cov = coverage(segs, kind)
+    if cov is None:
+        return False, 'an event position is not of the form i + c'
+    ctx = Ctx(list(facts), [])
+    ivs = [(a, b) for a, b, _ in cov]
+    detail = ', '.join(f'[{a}, {b}]' for a, b in ivs) or 'nothing'
+    cur = lo
+    for _ in range(len(ivs) + 1):
+        if nonneg(cur - hi - ONE, ctx):
+            return True, detail
+        nxt = [(a, b) for a, b in ivs if nonneg(cur - a, ctx) and nonneg(b - cur, ctx)]
+        if not nxt:
+            return False, f'position {cur} is not visited: steps cover {detail}'
+        best = nxt[0]
+        for a, b in nxt[1:]:
+            if nonneg(b - best[1], ctx):
+                best = (a, b)
+        cur = best[1] + ONE
+    return nonneg(cur - hi - ONE, ctx), detail
